@@ -59,6 +59,25 @@ Proof. exact choice_branch. Qed.
 Print Assumptions C14_choice_branch.
 
 (* non-vacuity: a{1,2} restricts a{0,3}; a{0,3} does not restrict a{1,2}, with the word [] as witness *)
+(* a sequence of leaves that restricts one element particle (XsdGroup.is_element_restriction after fix cfec1b5) *)
+Theorem C14_elem_restriction_sound : forall its l' mn' mx',
+  elem_restriction its l' mn' mx' = true ->
+  forall pid pid' w, seql (items_parts pid its) w -> plang (PLeaf pid' l' mn' mx') w.
+Proof. exact elem_restriction_sound. Qed.
+Print Assumptions C14_elem_restriction_sound.
+
+(* the rule before the fix (every optional item accepted) admits a word outside the base *)
+Theorem C14_elem_restriction_old_refuted :
+  exists its l' mn' mx' w,
+    elem_restriction_old its l' mn' mx' = true /\ elem_restriction its l' mn' mx' = false /\
+    seql (items_parts 1 its) w /\ ~ plang (PLeaf 0 l' mn' mx') w.
+Proof. exact elem_restriction_old_refuted. Qed.
+Print Assumptions C14_elem_restriction_old_refuted.
+
+Example C14_elem_restriction_example :
+  elem_restriction [(Pos [1%N], 1, Some 1); (Pos [1%N], 0, Some 2); (Pos [2%N], 0, Some 0)] (Pos [1%N; 3%N]) 1 None = true.
+Proof. reflexivity. Qed.
+
 Example C14_example :
   incl_upto [10%N] 4 (PLeaf 1 (Pos [10%N]) 1 (Some 2)) (PLeaf 1 (Pos [10%N]) 0 (Some 3)) = true /\
   incl_counterexample [10%N] 4 (PLeaf 1 (Pos [10%N]) 0 (Some 3)) (PLeaf 1 (Pos [10%N]) 1 (Some 2)) = Some [].
